@@ -67,6 +67,8 @@ def callers(get):
     yield "NEWOBJ_EX", get + ARG + [op("TUPLE1"), op("EMPTY_DICT"), op("NEWOBJ_EX")]
     yield "REDUCE-via-memo", get + [op("PUT", 7), op("POP"), op("GET", 7)] + ARG + [op("TUPLE1"), op("REDUCE")]
     yield "REDUCE-dup", get + [op("DUP"), op("POP")] + ARG + [op("TUPLE1"), op("REDUCE")]
+    # an empty SETITEMS batch applied to the argument tuple (a no-op for the VM on any object), with a benign global below the callee
+    yield "REDUCE-after-empty-setitems-on-args", G("collections", "OrderedDict") + get + ARG + [op("TUPLE1"), op("MARK"), op("SETITEMS"), op("REDUCE")]
     # MEMOIZE stores at len(memo): after a benign global PUT at the sparse key 1, the memoised callee *replaces* it, and GET 1 fetches the callee
     yield "REDUCE-via-memoize-over-sparse-put", G("collections", "OrderedDict") + [op("BINPUT", 1), op("POP")] + get + [op("MEMOIZE"), op("POP"), op("BINGET", 1)] + ARG + [op("TUPLE1"), op("REDUCE")]
 
